@@ -6,6 +6,7 @@ KEY_POOL = [b'a', b'b', b'c', b'd', b'aa', b'ab', b'B', b'_x', b'k1', b'z', b'a-
 STR_POOL = [b'x', b'y', b'abc', b'', b'a b', b'X', b'10', b'ab', b'bc']
 NUM_POOL = [0.0, 1.0, 2.0, 3.0, -1.0, 0.5, 1.5, 10.0, 100.0, -2.5, 1e300, 2.0 ** 53, 0.1]
 JNUM_POOL = ['0', '1', '2', '3', '-1', '0.5', '1.5', '10', '100', '-2.5', '1e2', '1.0', '2.50', '1E1', '0.1', '1e400', '-1e999']
+DEEP_ONLY_KINDS = ['intmap', 'intslice', 'namedslice', 'namedmap', 'bytes', 'freshptr']
 FILTER_FUNCS = ['twice', 'wrap', 'tn', 'fail', 'fstr', 'id']
 AGG_FUNCS = ['cnt', 'first', 'arr', 'afail', 'amax']
 
@@ -531,7 +532,12 @@ def refs_family(g, jnum=False, opaque_kinds=None):
     members, miss others and meet other types.  Returns (doc, [filter texts])."""
     r = g.r
     if opaque_kinds:
-        pool = [('x', k) for k in r.sample(opaque_kinds, min(3, len(opaque_kinds)))] + [('n', 1.0), ('s', b'x')]
+        # at least one kind whose values cannot be compared with Go's == (typed maps and slices) or are
+        # fresh pointers: path-vs-path equality must be reflect.DeepEqual on them
+        deep = [k for k in opaque_kinds if k in DEEP_ONLY_KINDS]
+        ks = r.sample(opaque_kinds, min(2, len(opaque_kinds))) + ([r.choice(deep)] if deep else [])
+        r.shuffle(ks)
+        pool = [('x', k) for k in ks] + [('n', 1.0), ('s', b'x')]
     else:
         nums = r.sample([0.0, 1.0, 2.0, 3.0, 5.0, 1.5, -1.0, 10.0], 3)
         pool = [(('j', fmt_num_literal(x).decode()) if jnum else ('n', x)) for x in nums] + \
@@ -580,6 +586,55 @@ def refs_family(g, jnum=False, opaque_kinds=None):
             e = r.choice([b'@.h', b'!@.h', b'$.nope']) + r.choice([b' && ', b' || ']) + e
         exprs.append(e)
     return doc, exprs
+
+
+def allwild_family(g):
+    """an all-wildcard bracket list ([*,*], [*,*,*]) under a multi-valued prefix or a recursive descent and
+    followed by further steps, on documents with arrays of different lengths (empty ones included) next to
+    objects: on arrays such a list is evaluated by an embedded union step with its own links"""
+    r = g.r
+
+    def leaf():
+        return r.choice([('n', 1.0), ('s', b'x'), ('o', []), ('o', [(b'a', ('n', 2.0))]), ('o', [(b'a', ('o', [(b'b', ('n', 3.0))]))]),
+                         ('a', []), ('a', [('n', 4.0)]), ('a', [('o', [(b'a', ('n', 5.0))]), ('n', 6.0)]), ('z',)])
+
+    def cont(d):
+        if d == 0:
+            return leaf()
+        n = r.choice([0, 1, 2, 2, 3])
+        if r.random() < 0.65:
+            return ('a', [cont(d - 1) if r.random() < 0.6 else leaf() for _ in range(n)])
+        return ('o', [(k, cont(d - 1) if r.random() < 0.6 else leaf()) for k in r.sample([b'a', b'b', b'c', b'd'], n)])
+    doc = cont(r.choice([1, 2, 2, 3]))
+    star2 = ('multi', ['*', '*'])
+    lst = r.choice([star2, star2, star2, ('multi', ['*', '*', '*']), ('multi', ['*', b'a']), ('multi', [b'a', '*'])])
+    name_a, name_b = ('name', b'a', 'dot'), ('name', b'b', 'dot')
+    prefix = r.choice([[('rec', lst)], [('rec', lst)], [('wild', 'br'), lst], [('wild', 'br'), lst], [('wild', 'dot'), lst], [lst],
+                       [('rec', name_a), lst], [('wild', 'br'), ('wild', 'br'), lst], [('union', [('idx', 0), ('idx', 1)]), lst]])
+    tail = r.choice([[], [name_a], [name_a], [('union', [('idx', 0)])], [('wild', 'br')], [name_a, name_b], [('rec', name_a)], [name_b]])
+    return doc, prefix + tail
+
+
+def jnum_order_family(g):
+    """json.Number members, some of them outside the float64 range, next to ordinary numbers, under ordering and
+    equality filters: the numeric conversion of one member must not disturb its siblings"""
+    r = g.r
+    pool = ['1e400', '-1e999', '2e308', '-2e308', '1e308', '0', '1', '2.5', '-3', '10', '1e2', '0.1']
+    n = r.randint(2, 5)
+    vals = [('j', r.choice(pool[:4])) if r.random() < 0.4 else ('j', r.choice(pool[4:])) for _ in range(n)]
+    if r.random() < 0.2:
+        vals[r.randrange(n)] = r.choice([('s', b'1'), ('z',), ('b', True)])
+    bare = r.random() < 0.4
+    members = vals if bare else [('o', [(b'a', v), (b'u', ('n', float(i)))]) for i, v in enumerate(vals)]
+    body = ('a', members) if r.random() < 0.7 else ('o', list(zip(r.sample(KEY_POOL, n), members)))
+    doc = ('o', [(b'list', body), (b'ref', ('j', r.choice(pool)))])
+    lhs = b'@' if bare else b'@.a'
+    op = r.choice([b'<', b'<=', b'>', b'>=', b'>', b'<', b'==', b'!='])
+    rhs = r.choice([b'1', b'2.5', b'0', b'-3', b'100', b'$.ref', b'1e400'])
+    e = (lhs + b' ' + op + b' ' + rhs) if r.random() < 0.8 else (rhs + b' ' + op + b' ' + lhs)
+    if rhs == b'1e400' and op in (b'==', b'!='):
+        e = lhs + b' > 1'
+    return doc, b'$.list[?(' + e + b')]' + r.choice([b'', b'', b'.u', b'.a'])
 
 
 def nested_arrays_family(g):
